@@ -51,6 +51,23 @@ TRUSTED_BASE = [
 ]
 
 
+_DOT_REF = re.compile(r'"\.[A-Za-z_]')
+
+
+def dot_ref(schema_text):
+    """the schema spells a reference with a leading dot (null namespace).  Inside a namespaced type the
+    parser accepts it, reference resolution re-qualifies it with the enclosing namespace and fails
+    (known finding F26, class unresolvable-reference-accepted): no writer or reader can be built."""
+    return bool(_DOT_REF.search(schema_text))
+
+
+def null_ns_schema(schema_text):
+    """the schema names a type in the NULL namespace from inside a namespaced type - by a leading-dot reference or by
+    "namespace": "" on a nested definition.  The parser keeps such names apart, reference resolution (ResolvedSchema)
+    lets a name without namespace inherit the enclosing one: references may then fail to resolve (F19 / F26)."""
+    return dot_ref(schema_text) or '"namespace": ""' in schema_text
+
+
 class Fail(Exception):
     pass
 
